@@ -200,6 +200,54 @@ Proof.
   apply Z.mod_small. change 18446744073709551616 with (2 ^ 64). apply quot_range; [apply Z.mod_pos_bound; reflexivity | exact Hb].
 Qed.
 
+(* narrow instantiations: the operands are promoted to int (cast T -> I32), the arithmetic is at I32 and the ONE cast back
+   to T encloses the whole quotient.  Under the machine reading this is the model's divRoundUp_n for operands of the type
+   with a >= 0, b > 0; the cast position is pinned (T(a + b - 1) / b is a different text and a different function) *)
+Lemma wI32' z : -2147483648 <= z < 2147483648 -> wrap I32 z = z.
+Proof.
+  intro H. change (wrap I32 z) with ((z + 2 ^ 31) mod 2 ^ 32 - 2 ^ 31).
+  change (2 ^ 31) with 2147483648. change (2 ^ 32) with 4294967296. rewrite Z.mod_small; lia.
+Qed.
+
+Lemma narrow_div_range a b : 0 <= a < 65536 -> 0 < b < 65536 -> 0 <= Z.quot (a + b - 1) b < 131072.
+Proof.
+  intros Ha Hb. rewrite Z.quot_div_nonneg by lia. split.
+  - apply Z.div_pos; lia.
+  - apply Z.le_lt_trans with (a + b - 1); [| lia]. apply Z.div_le_upper_bound; [lia | nia].
+Qed.
+
+Ltac narrow_divRoundUp Ha Hb :=
+  cbn [MZ bop cast ilit z_bop];
+  change (wrap I32 1) with 1;
+  repeat rewrite (wI32' _) by (first [lia | pose proof (narrow_div_range _ _ Ha Hb); lia]);
+  reflexivity.
+
+Lemma gen_divRoundUp_u8 a b : 0 <= a < 256 -> 0 < b < 256 -> divRoundUp__uc_uc MZ a b = divRoundUp_n false 8 a b.
+Proof.
+  intros Ha Hb. unfold divRoundUp__uc_uc, divRoundUp_n.
+  assert (Ha' : 0 <= a < 65536) by lia. assert (Hb' : 0 < b < 65536) by lia.
+  cbn [MZ bop cast ilit z_bop]. change (wrap I32 1) with 1.
+  pose proof (narrow_div_range a b Ha' Hb') as Hq.
+  rewrite !(wI32' a), !(wI32' b) by lia. rewrite (wI32' (a + b)) by lia. rewrite (wI32' (a + b - 1)) by lia.
+  rewrite (wI32' (Z.quot (a + b - 1) b)) by lia. reflexivity.
+Qed.
+
+Lemma gen_divRoundUp_i16 a b : 0 <= a < 32768 -> 0 < b < 32768 -> divRoundUp__s_s MZ a b = divRoundUp_n true 16 a b.
+Proof.
+  intros Ha Hb. unfold divRoundUp__s_s, divRoundUp_n.
+  assert (Ha' : 0 <= a < 65536) by lia. assert (Hb' : 0 < b < 65536) by lia.
+  cbn [MZ bop cast ilit z_bop]. change (wrap I32 1) with 1.
+  pose proof (narrow_div_range a b Ha' Hb') as Hq.
+  rewrite !(wI32' a), !(wI32' b) by lia. rewrite (wI32' (a + b)) by lia. rewrite (wI32' (a + b - 1)) by lia.
+  rewrite (wI32' (Z.quot (a + b - 1) b)) by lia. reflexivity.
+Qed.
+
+(* ideal reading (casts are the identity): every width has the same shape *)
+Lemma gen_divRoundUp_narrow_ideal a b :
+  divRoundUp__c_c IZ a b = divRoundUp a b /\ divRoundUp__uc_uc IZ a b = divRoundUp a b /\
+  divRoundUp__s_s IZ a b = divRoundUp a b /\ divRoundUp__us_us IZ a b = divRoundUp a b.
+Proof. repeat split; reflexivity. Qed.
+
 Lemma gen_clamp_int x lo hi : clamp__i_i_i IZ x lo hi = clampZ x lo hi.
 Proof. reflexivity. Qed.
 
